@@ -62,6 +62,36 @@ CHECKS = {
          "(a) cri.NewCRIKeychain over a fake ImageService: sequential Pull/Remove histories with a full (host, ref) query sweep after every request judged by a 60-line model, concurrent histories checked by porcupine (one register per exact reference). (b) keychain + static credentials -> RegistryHostsFromConfig (mirrors with secret headers) -> remote.Resolver -> Blob ReadAt/Cache/Check/Refresh over a scripted in-memory RoundTripper logging every request at two levels (direct, 302/307 to CDN, expiring tokens, 401 challenges, redirect<->direct switches): every secret names its owner host and may appear only there. The order 'fetch read old URL -> refresh completes -> header read' is imposed via hook points; storms run for the race detector. Holds on the histories executed.",
          "Trusted: porcupine v1.3.0, distribution/reference name normalisation, the taint model (each secret string encodes its owner). Credentials that Go's net/http itself forwards on a same-domain redirect are observed, not judged (not derivable from the statement).",
          "DESIGN.md section 5 C18"),
+ "C02": ("exploration",
+         "reference-model differential oracle over concurrent random access histories on the full in-process stack + Go race detector",
+         "gen.RandomTar archives (prefixed names, implicit parents, hardlink chains, duplicates, multi-chunk files, xattrs, devices) built with random options are served through memreg -> fs/remote -> metadata store (memory|db) -> fs/reader -> fs/layer nodes; 4-16 walkers (lookup, readdir, getattr, readlink, xattrs, boundary reads, passthrough fd) run concurrently with Prefetch, BackgroundFetch, prioritized tasks, cache eviction and registry personalities/outages; every answer is compared with gen.Model immediately. Child stages: race build, hand-minimised probes, db-growth (kept nodes re-judged while the shared bolt file grows), real FUSE mount with a syscall walk. Holds on the histories executed.",
+         "Trusted: the tar model (gen.Model) and Go's archive/tar used to serialise it. Not judged: inode numbers, block counts, directory order, directory nlink, attributes of implicit directories. Kernel passthrough splice is not covered.",
+         "DESIGN.md section 5 C02"),
+ "C05": ("exploration",
+         "differential oracle between the two metadata stores over builder-made and hand-assembled spec-conforming blobs + sharing scenarios under the Go race detector",
+         "For builder blobs (random options) and hand-assembled TOCs (implicit parents, repeated directory entries, hardlink chains, missing digests, ./ ../ names, empty xattrs, trailing whitespace, shared inner-offset streams, explicit root) both stores are opened and walked in PRNG order over every metadata.Reader method (ChunkEntryForOffset probed at every boundary +-1, ReadAt over every chunk, pre-reader callbacks, Clone); a path-keyed deep comparison must agree, both must accept/reject alike. 2-12 layers share ONE bolt file with concurrent walkers and closes; survivors are re-walked. Holds on the blobs generated.",
+         "Trusted: the hand assembler's reading of docs/estargz.md. Slack: ForeachChild order, NumLink 0 == 1 (documented), store-private node ids, error texts, chunk probes outside [0,size).",
+         "DESIGN.md section 5 C05"),
+ "C06": ("exploration",
+         "self-describing-content oracle + fetched-size conservation monitor over scripted server personalities and cache faults + Go race detector",
+         "remote.Resolver.Resolve on memreg with a recording/fault-injecting cache (internal/reccache): blob sizes around chunk multiples, chunk and prefetch-chunk sizes, direct/redirect+expiring-token/400-single-range registries, permuted multipart, transient failures before/between/after parts, cache loss and read errors, 1-32 goroutines on hot regions (shared single-flight), cancellable contexts. Every ReadAt is error or exact; an error is flagged only in phases where no fault was delivered; FetchedSize is per-observer monotonic, <= Size and at quiescence equals the distinct bytes committed to the cache. Holds on the scenarios executed.",
+         "Trusted: gen.FillContent (content is a function of the offset), reccache's commit table. An error in a phase with any injected fault is always accepted (single-flight hands one failure to every overlapping reader).",
+         "DESIGN.md section 5 C06"),
+ "C11": ("exploration",
+         "self-describing-value oracle on concurrent cache histories + Go race detector",
+         "cache.NewDirectoryCache (wired exactly like fs/layer.newCache and with its defaults) x {Direct, SyncAdd, FadvDontNeed} and cache.NewMemoryCache, LRU capacities 1-4, 8-32 goroutines over more keys than both LRUs hold: writers (partial writes, commit/abort/close-only, duplicate adds) and readers (full + random ranges read twice, readers held across evictions). Values carry (key, writer, length) + PRNG body; aborted writers write poison. A hit must be, in full, the value of one writer of that key whose Commit had been called before Get returned; double reads equal; held readers stable. Holds on the rounds executed.",
+         "Trusted: the per-writer commit-call stamp (written immediately before Commit is invoked). A miss is always acceptable. PassThrough() selects no code path in cache.go and is only counted.",
+         "DESIGN.md section 5 C11"),
+ "C12": ("exploration",
+         "reference-model monitor on resolver histories with build-tagged expiry, resource quiescence scan (dirs, bolt buckets, fds) + Go race detector",
+         "layer.Resolver on memreg with 3-6 layers and up to 8 holders: Resolve (30% under injected faults), Verify, reads, Done, Close, explicit TTL expiry through build-tagged shims, Refresh, Check, prioritized tasks, background fetches, bursts of concurrent first Resolves; sequential histories and a concurrent phase. Holder reads must succeed with genuine bytes while the registry is healthy; a burst yields one resolved instance; at quiescence no cache directory, bolt bucket or fd below the resolver root survives (after two forced GCs, decided on state); a later Resolve works afresh. Holds on the histories executed.",
+         "Trusted: gen.Model for read content; /proc/self/fd and directory scans. Memory (as opposed to fd/dir/bucket) reclamation is not observed.",
+         "DESIGN.md section 5 C12"),
+ "C15": ("exploration",
+         "request-log monitor (no traffic after prefetch, coverage of the configured range, offline reads after background fetch) + order-based wait bound",
+         "Layers with prefetch landmark / no-prefetch landmark / none on the L2 stack with varied prefetch size, async threshold, chunk sizes, both stores: after Prefetch+Wait (write-behind drained) reading every prioritized file causes no registry request; a no-prefetch layer causes no prefetch traffic; without landmarks min(size, blob) bytes are covered; after a successful BackgroundFetch every file reads with the registry down; Wait returns while a stalled prefetch request is still held (30x watchdog), failures and stalls injected, concurrent/repeated calls, prioritized tasks during background fetch. L3 stage: real Mount -> first Check ordering. Holds on the cases executed.",
+         "Trusted: memreg's request log is complete (every request passes its RoundTripper). Clause A' (reads after dropping the compressed-blob cache) goes beyond the statement and is declared as an assumption in the evidence.",
+         "DESIGN.md section 5 C15"),
 }
 
 PENDING_REASON = "check not built yet in this session (work in progress; DESIGN.md section 5 describes the planned runtime monitor)"
